@@ -221,6 +221,26 @@ class Layouts:
                 s = self.eval(a[0], shapes, args, tail_len)
                 al = self.eval(a[1], shapes, args, tail_len)
                 return ("L", s, al)
+            if path == "<core::alloc::layout::Layout>::align_to":
+                _, s, al = self.eval(a[0], shapes, args, tail_len)
+                al2 = self.eval(a[1], shapes, args, tail_len)
+                if al2 == 0 or al2 & (al2 - 1):
+                    return ("ERR",)
+                na = max(al, al2)
+                if s > ISIZE_MAX - (na - 1):
+                    return ("ERR",)
+                return ("L", s, na)
+            if path == "<core::alloc::layout::Layout>::padding_needed_for":
+                _, s, al = self.eval(a[0], shapes, args, tail_len)
+                al2 = self.eval(a[1], shapes, args, tail_len)
+                return round_up(s, al2) - s
+            if path == "<core::alloc::layout::Layout>::repeat":
+                _, s, al = self.eval(a[0], shapes, args, tail_len)
+                n = self.eval(a[1], shapes, args, tail_len)
+                ps = round_up(s, al)
+                if ps * n > ISIZE_MAX - (al - 1):
+                    return ("ERR",)
+                return ("T", ("L", ps * n, al), ps)
             if path in ("<core::alloc::layout::Layout>::size", "<core::alloc::layout::Layout>::align"):
                 _, s, al = self.eval(a[0], shapes, args, tail_len)
                 return s if path.endswith("size") else al
